@@ -5264,12 +5264,18 @@ fn write_section_headers(out: &mut [u8], layout: &ElfLayout) -> Result {
         entry.sh_type.set(e, sh_type);
 
         // TODO: Sections are always uncompressed and the output compression is not supported yet.
+        // The gABI requires the flags and address of the section header at index 0 to be zero.
+        let is_null_header = section_type == sht::NULL;
         entry.sh_flags.set(
             e,
-            output_sections
-                .section_flags(section_id)
-                .without(shf::COMPRESSED)
-                .raw(),
+            if is_null_header {
+                0
+            } else {
+                output_sections
+                    .section_flags(section_id)
+                    .without(shf::COMPRESSED)
+                    .raw()
+            },
         );
 
         let name = layout.output_sections.name(section_id).with_context(|| {
@@ -5302,7 +5308,7 @@ fn write_section_headers(out: &mut [u8], layout: &ElfLayout) -> Result {
 
         entry.sh_addr.set(
             e,
-            if layout.symbol_db.args.should_output_partial_object() {
+            if layout.symbol_db.args.should_output_partial_object() || is_null_header {
                 0
             } else {
                 section_layout.mem_offset
